@@ -125,6 +125,18 @@ AggEditCases == {[form |-> "aggedit", op |-> name, sa |-> sh, sb |-> Scalar, A |
 \*   "sub":  U - V.W     (vectors of one length n: the scalar V.W is subtracted from every entry of U)
 \*   "in":   A.(B + B*A) (square matrices n x n: an element-wise expression, nested twice, as the second operand of the dot product)
 \*   "in1":  A.(B + A)
+\* an aggregate used as an OPERAND of a scalar expression: it is one value, whatever operator surrounds it.
+\* K is a scalar element: "powbase" agg ** 2, "divright" K / agg, "modright" K % agg, "subright" K - agg, "negmul" (0 - agg) * K
+AggIn(op, x, k) == CASE op = "powbase" -> Mul(x, x)
+                     [] op = "divright" -> Div(k, x)
+                     [] op = "modright" -> Mod(k, x)
+                     [] op = "subright" -> Sub(k, x)
+                     [] op = "mulright" -> Mul(k, x)
+\* (entries 4, 7, 10, ...: none of them 0 or 1, so that a product that falls apart is visible)
+AggInCases == {c \in {[form |-> "aggin", op |-> op, agg |-> name, sa |-> sa, sb |-> Scalar, A |-> ToJson(Operand(sa, "B")), B |-> ToJson(R(k)),
+                       res |-> ToJson(AggIn(op, Agg(name, sa, Operand(sa, "B"), 1), R(k)))]
+                      : op \in {"powbase", "divright", "modright", "subright", "mulright"}, name \in {"sum", "prod", "mean"}, sa \in {<<0, 1>>, <<0, 2>>, <<0, 3>>, <<2, 2>>}, k \in {840, 1000}}
+               : LET x == Agg(c.agg, c.sa, Operand(c.sa, "B"), 1) IN IsDef(x) /\ IsDef(AggIn(c.op, x, R(IF c.B = ToJson(R(840)) THEN 840 ELSE 1000))) /\ (c.op = "modright" => x[1] > 0)}
 VecN(n, which) == Operand(<<0, n>>, which)
 SqN(n, which) == Operand(<<n, n>>, which)
 DotMixCases ==
@@ -134,7 +146,7 @@ DotMixCases ==
            res |-> ToJson(Dot(<<n, n>>, <<n, n>>, SqN(n, "A"), EW("+", <<n, n>>, <<n, n>>, SqN(n, "B"), EW("*", <<n, n>>, <<n, n>>, SqN(n, "B"), SqN(n, "A")))))] : n \in 1..MaxDim}
     \cup {[form |-> "dotmix", op |-> "in1", sa |-> <<n, n>>, sb |-> <<n, n>>, A |-> ToJson(SqN(n, "A")), B |-> ToJson(SqN(n, "B")),
            res |-> ToJson(Dot(<<n, n>>, <<n, n>>, SqN(n, "A"), EW("+", <<n, n>>, <<n, n>>, SqN(n, "B"), SqN(n, "A"))))] : n \in 1..MaxDim}
-Cases == EwCases \cup DotCases \cup AggCases \cup NestCases \cup AggEditCases \cup DotMixCases
+Cases == EwCases \cup DotCases \cup AggCases \cup AggInCases \cup NestCases \cup AggEditCases \cup DotMixCases
          \cup {c \in RedimCases : c.prev \in Smaller(c.sa)} \cup OrderCases
 
 Init == case \in Cases /\ done = FALSE
